@@ -113,7 +113,7 @@ pub fn placements_for_protocol(p: &Protocol, ip: IpAddr, port: u16, port_given: 
                 ProprietaryProtocol::JC2M => (udp(Fam::Jc2m), false),
                 ProprietaryProtocol::Savage2 => (udp(Fam::Savage2), false),
                 ProprietaryProtocol::Mindustry => (udp(Fam::Mindustry), false),
-                ProprietaryProtocol::Eco => (Vec::new(), true),
+                ProprietaryProtocol::Eco => if t.draw(CFG, 2) == 0 { (tcp(Fam::EcoHttp), false) } else { (Vec::new(), true) },
                 ProprietaryProtocol::Minecraft(v) => {
                     use gamedig::games::minecraft::Server as S;
                     match v {
@@ -319,7 +319,13 @@ pub fn gen_scenario(t: &mut Tape, ip: IpAddr, max_retries: u64) -> Scenario {
                 default_port: 3001,
                 timeout: if level == 0 { None } else { timeout },
             };
-            Scenario { call, placements: Vec::new(), http: true }
+            // half of the cases: a scripted TCP peer, the real HTTP client runs against it
+            if t.draw(CFG, 2) == 0 {
+                let addr = call.sockaddr();
+                Scenario { call, placements: vec![Placement { addr, proto: Proto::Tcp, fam: Fam::EcoHttp }], http: false }
+            } else {
+                Scenario { call, placements: Vec::new(), http: true }
+            }
         }
         21 => {
             let region = *t.pick(CFG, &REGIONS);
